@@ -1126,4 +1126,868 @@ theorem runCycle_eq_none {p : Proc N} {prog : List (Instr N)} {s : SimState N}
       | true => exact ⟨lab, qs, rfl, hc, hb⟩
       | false => simp [hb] at h
 
+open Spec
+
+/-! ## 3. What `wfProc` gives -/
+
+section wf
+omit [LT N] [DecidableRel (α := N) (· < ·)]
+
+theorem wfProc_nodup_names {p : Proc N} (h : wfProc p = true) : (p.allUnits.map (·.name)).Nodup := by
+  simp only [wfProc, Bool.and_eq_true, decide_eq_true_eq] at h
+  exact h.1.1.1.1
+
+theorem wfProc_caps_nonempty {p : Proc N} (h : wfProc p = true) : ∀ u ∈ p.allUnits, u.caps ≠ [] := by
+  simp only [wfProc, Bool.and_eq_true, List.all_eq_true] at h
+  intro u hu e
+  have := h.1.1.1.2 u hu
+  simp [e] at this
+
+theorem wfProc_orderOK {p : Proc N} (h : wfProc p = true) : orderOK p = true := by
+  simp only [wfProc, Bool.and_eq_true] at h
+  exact h.1.1.2
+
+theorem wfProc_routes {p : Proc N} (h : wfProc p = true) :
+    ∀ c ∈ allCaps p, ∀ s ∈ p.inBoundary, c ∈ s.caps → ∀ r ∈ routesFrom p c p.allUnits.length s, routeLocksOK r = true := by
+  simp only [wfProc, Bool.and_eq_true, List.all_eq_true] at h
+  intro c hc s hs hcs r hr
+  exact h.1.2 c hc s (List.mem_filter.2 ⟨hs, by simpa using hcs⟩) r hr
+
+/-- no unit lists a predecessor twice -/
+theorem wfProc_preds_nodup {p : Proc N} (h : wfProc p = true) : ∀ d ∈ p.dests, d.preds.Nodup := by
+  simp only [wfProc, Bool.and_eq_true, List.all_eq_true, decide_eq_true_eq] at h
+  exact h.2
+
+theorem destPos_isSome_of_mem {p : Proc N} {d : FuncU N} (hd : d ∈ p.dests) :
+    ∃ k, destPos p d.model.name = some k := by
+  cases h : destPos p d.model.name with
+  | some k => exact ⟨k, rfl⟩
+  | none =>
+    unfold destPos at h
+    rw [List.findIdx?_eq_none_iff] at h
+    have := h d hd
+    simp at this
+
+/-- what `orderOK` says about one connection `q → d` -/
+theorem orderOK_pred {p : Proc N} (h : orderOK p = true) {d : FuncU N} (hd : d ∈ p.dests) {q : N}
+    (hq : q ∈ d.preds) :
+    q ∈ p.allUnits.map (·.name) ∧ q ∉ p.outBoundary ∧
+      ∀ kq, destPos p q = some kq → ∃ kd, destPos p d.model.name = some kd ∧ kd < kq := by
+  simp only [orderOK, List.all_eq_true, Bool.and_eq_true, decide_eq_true_eq, isOutB, Bool.not_eq_true',
+    decide_eq_false_iff_not] at h
+  obtain ⟨⟨h1, h2⟩, h3⟩ := h d hd q hq
+  refine ⟨h1, h2, ?_⟩
+  intro kq hkq
+  obtain ⟨kd, hkd⟩ := destPos_isSome_of_mem hd
+  rw [hkq, hkd] at h3
+  exact ⟨kd, hkd, by simpa using h3⟩
+
+/-- a destination is never its own predecessor -/
+theorem orderOK_self_not_pred {p : Proc N} (h : orderOK p = true) {d : FuncU N} (hd : d ∈ p.dests) :
+    d.model.name ∉ d.preds := by
+  intro hq
+  obtain ⟨k, hk⟩ := destPos_isSome_of_mem hd
+  obtain ⟨kd, hkd, hlt⟩ := (orderOK_pred h hd hq).2.2 k hk
+  rw [hk] at hkd; cases hkd; omega
+
+theorem wfProc_self_not_pred {p : Proc N} (h : wfProc p = true) : ∀ d ∈ p.dests, d.model.name ∉ d.preds :=
+  fun _ hd => orderOK_self_not_pred (wfProc_orderOK h) hd
+
+end wf
+
+/-! ## 3'. Per-record invariants -/
+
+section rows
+omit [LT N] [DecidableRel (α := N) (· < ·)]
+
+/-- Facts about one cycle record that need only unique unit names: `e` bounds the hosted program indices. -/
+structure RowBase (p : Proc N) (e : Nat) (u : Util N) : Prop where
+  /-- the record has no duplicate key -/
+  keys_nodup : (AMap.keys u).Nodup
+  /-- only units of the processor host instructions -/
+  names : ∀ n, u.get n ≠ [] → n ∈ p.allUnits.map (·.name)
+  /-- only issued instructions are hosted -/
+  idx_lt : ∀ n x, x ∈ u.get n → x.idx < e
+  /-- C04: no unit exceeds its width -/
+  width : ∀ m ∈ p.allUnits, (u.get m.name).length ≤ m.width
+
+/-- No program index is hosted twice — neither twice in one unit nor in two units. -/
+structure RowND (u : Util N) : Prop where
+  nodup_unit : ∀ n, ((u.get n).map (·.idx)).Nodup
+  unique_host : ∀ n n' i, i ∈ (u.get n).map (·.idx) → i ∈ (u.get n').map (·.idx) → n = n'
+
+/-- all hosted program indices, unit by unit in the order of `p.allUnits` -/
+def hostedIdx (p : Proc N) (u : Util N) : List Nat :=
+  (p.allUnits.map (·.name)).flatMap (fun n => (u.get n).map (·.idx))
+
+theorem nodup_flatMap_of {α β : Type} (l : List α) (f : α → List β) (hl : l.Nodup)
+    (h1 : ∀ a ∈ l, (f a).Nodup) (h2 : ∀ a ∈ l, ∀ b ∈ l, ∀ x, x ∈ f a → x ∈ f b → a = b) :
+    (l.flatMap f).Nodup := by
+  induction l with
+  | nil => simp
+  | cons a l ih =>
+    rw [List.nodup_cons] at hl
+    rw [List.flatMap_cons, List.nodup_append]
+    refine ⟨h1 a List.mem_cons_self, ih hl.2 (fun b hb => h1 b (List.mem_cons_of_mem _ hb))
+      (fun b hb c hc => h2 b (List.mem_cons_of_mem _ hb) c (List.mem_cons_of_mem _ hc)), ?_⟩
+    intro x hx y hy e
+    subst e
+    obtain ⟨b, hb, hxb⟩ := List.mem_flatMap.1 hy
+    have := h2 a List.mem_cons_self b (List.mem_cons_of_mem _ hb) x hx hxb
+    subst this
+    exact hl.1 hb
+
+/-- the concatenation of all hosted indices has no duplicate (given unique unit names) -/
+theorem RowND.hosted_nodup {p : Proc N} {u : Util N} (h : RowND u) (hn : (p.allUnits.map (·.name)).Nodup) :
+    (hostedIdx p u).Nodup :=
+  nodup_flatMap_of _ _ hn (fun n _ => h.nodup_unit n) (fun n _ n' _ i hi hi' => h.unique_host n n' i hi hi')
+
+/-- conversely, if all non-empty units are units of `p` -/
+theorem RowND.of_hosted_nodup {p : Proc N} {u : Util N} (hnames : ∀ n, u.get n ≠ [] → n ∈ p.allUnits.map (·.name))
+    (h : (hostedIdx p u).Nodup) : RowND u := by
+  have key : ∀ (l : List N), (l.flatMap (fun n => (u.get n).map (·.idx))).Nodup →
+      (∀ n ∈ l, ((u.get n).map (·.idx)).Nodup) ∧
+      ∀ n ∈ l, ∀ n' ∈ l, ∀ i, i ∈ (u.get n).map (·.idx) → i ∈ (u.get n').map (·.idx) → n = n' := by
+    intro l
+    induction l with
+    | nil => simp
+    | cons a l ih =>
+      intro hnd
+      rw [List.flatMap_cons, List.nodup_append] at hnd
+      obtain ⟨ha, hl, hdisj⟩ := hnd
+      obtain ⟨ih1, ih2⟩ := ih hl
+      refine ⟨?_, ?_⟩
+      · intro n hn
+        rcases List.mem_cons.1 hn with e | e
+        · subst e; exact ha
+        · exact ih1 n e
+      · intro n hn n' hn' i hi hi'
+        rcases List.mem_cons.1 hn with e | e <;> rcases List.mem_cons.1 hn' with e' | e'
+        · rw [e, e']
+        · subst e
+          exact absurd rfl (hdisj i hi i (List.mem_flatMap.2 ⟨n', e', hi'⟩))
+        · subst e'
+          exact absurd rfl (hdisj i hi' i (List.mem_flatMap.2 ⟨n, e, hi⟩))
+        · exact ih2 n e n' e' i hi hi'
+  obtain ⟨k1, k2⟩ := key _ h
+  have mem_names : ∀ n i, i ∈ (u.get n).map (·.idx) → n ∈ p.allUnits.map (·.name) := by
+    intro n i hi
+    apply hnames
+    intro e; rw [e] at hi; cases hi
+  refine ⟨?_, ?_⟩
+  · intro n
+    by_cases e : u.get n = []
+    · simp [e]
+    · exact k1 n (hnames n e)
+  · intro n n' i hi hi'
+    exact k2 n (mem_names n i hi) n' (mem_names n' i hi') i hi hi'
+
+theorem RowBase.nil (p : Proc N) (e : Nat) : RowBase p e ([] : List (N × List HI)) :=
+  ⟨by simp, by simp, by simp, by simp⟩
+
+theorem RowND.nil : RowND ([] : List (N × List HI)) := ⟨by simp, by simp⟩
+
+theorem RowBase.mono {p : Proc N} {e e' : Nat} {u : Util N} (h : RowBase p e u) (he : e ≤ e') : RowBase p e' u :=
+  ⟨h.keys_nodup, h.names, fun n x hx => Nat.lt_of_lt_of_le (h.idx_lt n x hx) he, h.width⟩
+
+/-- with duplicate-free keys, the entry-wise reading of `names` (the form used by the C03 checker) -/
+theorem RowBase.entry_names {p : Proc N} {e : Nat} {u : Util N} (h : RowBase p e u) {n : N} {l : List HI}
+    (hm : (n, l) ∈ AMap.toList u) : l = [] ∨ n ∈ p.allUnits.map (·.name) := by
+  by_cases hl : l = []
+  · exact Or.inl hl
+  · right; apply h.names; rw [Util.get_of_mem h.keys_nodup hm]; exact hl
+
+/-- a record whose units hold sub-lists of another record's units inherits the facts -/
+theorem RowBase.of_sublist {p : Proc N} {e : Nat} {u u' : Util N} (h : RowBase p e u)
+    (hk : (AMap.keys u').Nodup) (hs : ∀ n, (u'.get n).Sublist (u.get n)) : RowBase p e u' := by
+  refine ⟨hk, ?_, ?_, ?_⟩
+  · intro n hne
+    apply h.names
+    intro e0
+    have := hs n; rw [e0] at this
+    exact hne (List.sublist_nil.1 this)
+  · intro n x hx; exact h.idx_lt n x ((hs n).subset hx)
+  · intro m hm; exact Nat.le_trans (hs m.name).length_le (h.width m hm)
+
+theorem RowND.of_sublist {u u' : Util N} (h : RowND u) (hs : ∀ n, (u'.get n).Sublist (u.get n)) : RowND u' := by
+  refine ⟨?_, ?_⟩
+  · intro n; exact ((hs n).map _).nodup (h.nodup_unit n)
+  · intro n n' i hi hi'
+    exact h.unique_host n n' i (((hs n).map _).subset hi) (((hs n').map _).subset hi')
+
+/-- the facts depend only on the keys and on the per-unit lists of program indices (not on the labels) -/
+theorem RowBase.congr {p : Proc N} {e : Nat} {u u' : Util N} (h : RowBase p e u)
+    (hk : (AMap.keys u').Nodup) (hs : ∀ n, (u'.get n).map (·.idx) = (u.get n).map (·.idx)) : RowBase p e u' := by
+  refine ⟨hk, ?_, ?_, ?_⟩
+  · intro n hne
+    apply h.names
+    intro e0
+    have := hs n; rw [e0] at this
+    exact hne (by simpa using this)
+  · intro n x hx
+    have : x.idx ∈ (u.get n).map (·.idx) := by rw [← hs n]; exact List.mem_map.2 ⟨x, hx, rfl⟩
+    obtain ⟨y, hy, e1⟩ := List.mem_map.1 this
+    rw [← e1]; exact h.idx_lt n y hy
+  · intro m hm
+    have := congrArg List.length (hs m.name)
+    simp only [List.length_map] at this
+    rw [this]; exact h.width m hm
+
+theorem RowND.congr {u u' : Util N} (h : RowND u) (hs : ∀ n, (u'.get n).map (·.idx) = (u.get n).map (·.idx)) :
+    RowND u' := by
+  refine ⟨?_, ?_⟩
+  · intro n; rw [hs n]; exact h.nodup_unit n
+  · intro n n' i hi hi'; rw [hs n] at hi; rw [hs n'] at hi'; exact h.unique_host n n' i hi hi'
+
+end rows
+
+open Spec
+
+/-! ## 3''. The steps preserve the per-record invariants -/
+
+section steps
+omit [LT N] [DecidableRel (α := N) (· < ·)]
+
+theorem RowBase.after_flush {p : Proc N} {e : Nat} {u : Util N} (h : RowBase p e u) (outs : List N) :
+    RowBase p e (flushOutputs outs u) :=
+  h.of_sublist (flushOutputs_keys_nodup outs h.keys_nodup) (flushOutputs_get_sublist outs u)
+
+theorem RowND.after_flush {u : Util N} (h : RowND u) (outs : List N) : RowND (flushOutputs outs u) :=
+  h.of_sublist (flushOutputs_get_sublist outs u)
+
+/-- a taken candidate is hosted by a predecessor in the record the destination is filled from -/
+theorem unitTaken_idx_mem {prog : List (Instr N)} {d : FuncU N} {u : Util N} {mem : Bool} {c : N × Nat}
+    (h : c ∈ unitTaken prog d u mem) : c.1 ∈ d.preds ∧ c.2 ∈ (u.get c.1).map (·.idx) := by
+  obtain ⟨h1, x, hx, _, e⟩ := mem_unitTaken h
+  exact ⟨h1, List.mem_map.2 ⟨x, hx, e⟩⟩
+
+theorem RowBase.after_fillUnit {p : Proc N} {e : Nat} {u : Util N} (h : RowBase p e u)
+    (hn : (p.allUnits.map (·.name)).Nodup) (prog : List (Instr N)) {d : FuncU N} (hd : d ∈ p.dests) (mem : Bool) :
+    RowBase p e (fillUnit prog d u mem).1 := by
+  have hdm := model_mem_allUnits_of_mem_dests hd
+  refine ⟨fillUnit_keys_nodup prog d mem h.keys_nodup, ?_, ?_, ?_⟩
+  · intro n hne
+    have hs := fillUnit_get_sublist prog d u mem n
+    by_cases hdn : d.model.name = n
+    · subst hdn; exact List.mem_map.2 ⟨d.model, hdm, rfl⟩
+    · rw [if_neg hdn] at hs
+      apply h.names
+      intro e0; rw [e0] at hs
+      exact hne (List.sublist_nil.1 hs)
+  · intro n x hx
+    have hs := (fillUnit_get_sublist prog d u mem n).subset hx
+    have old : x ∈ u.get n → x.idx < e := h.idx_lt n x
+    by_cases hdn : d.model.name = n
+    · rw [if_pos hdn, List.mem_append] at hs
+      rcases hs with hs | hs
+      · exact old hs
+      · obtain ⟨c, hc, rfl⟩ := List.mem_map.1 hs
+        obtain ⟨_, y, hy, _, e1⟩ := mem_unitTaken hc
+        simp only
+        rw [← e1]; exact h.idx_lt _ y hy
+    · rw [if_neg hdn] at hs; exact old hs
+  · intro m hm
+    by_cases hdn : d.model.name = m.name
+    · have : d.model = m := unit_eq_of_name_eq hn hdm hm hdn
+      subst this
+      exact fillUnit_length_self prog d u mem (h.width _ hm)
+    · have hs := fillUnit_get_sublist prog d u mem m.name
+      rw [if_neg hdn] at hs
+      exact Nat.le_trans hs.length_le (h.width m hm)
+
+/-- the candidates of a destination carry pairwise different program indices -/
+theorem candidates_idx_nodup {u : Util N} (h : RowND u) (prog : List (Instr N)) {d : FuncU N}
+    (hpn : d.preds.Nodup) : ((candidates prog d u).map (·.2)).Nodup := by
+  refine ((candidates_perm prog d u).map _).nodup_iff.2 ?_
+  rw [List.map_flatMap]
+  apply nodup_flatMap_of _ _ hpn
+  · intro a _
+    have : ((candsOf prog d.model u a).map (·.2)) = ((u.get a).filter (validCand prog d.model)).map (·.idx) := by
+      simp [candsOf, List.map_map, Function.comp_def]
+    rw [this]
+    exact (List.filter_sublist.map _).nodup (h.nodup_unit a)
+  · intro a _ b _ i hi hi'
+    have key : ∀ a, i ∈ (candsOf prog d.model u a).map (·.2) → i ∈ (u.get a).map (·.idx) := by
+      intro a hi
+      obtain ⟨c, hc, rfl⟩ := List.mem_map.1 hi
+      obtain ⟨_, x, hx, _, e⟩ := mem_candsOf.1 hc
+      exact List.mem_map.2 ⟨x, hx, e⟩
+    exact h.unique_host a b i (key a hi) (key b hi')
+
+theorem unitTaken_idx_nodup {u : Util N} (h : RowND u) (prog : List (Instr N)) {d : FuncU N}
+    (hpn : d.preds.Nodup) (mem : Bool) : ((unitTaken prog d u mem).map (·.2)).Nodup :=
+  ((unitTaken_sublist prog d u mem).map _).nodup (candidates_idx_nodup h prog hpn)
+
+theorem RowND.after_fillUnit {u : Util N} (h : RowND u) (prog : List (Instr N)) {d : FuncU N}
+    (hpn : d.preds.Nodup) (hself : d.model.name ∉ d.preds) (mem : Bool) :
+    RowND (fillUnit prog d u mem).1 := by
+  have hT := unitTaken_idx_nodup h prog hpn mem
+  have hself_get := fillUnit_get_self prog d u mem hself
+  -- indices of the destination afterwards
+  have hI_self : ((fillUnit prog d u mem).1.get d.model.name).map (·.idx) =
+      (u.get d.model.name).map (·.idx) ++ (unitTaken prog d u mem).map (·.2) := by
+    rw [hself_get, List.map_append, List.map_map]; rfl
+  -- other units: sub-list, and the moved ones are gone
+  have hother : ∀ n, d.model.name ≠ n → ((fillUnit prog d u mem).1.get n).Sublist (u.get n) := by
+    intro n hne
+    have := fillUnit_get_sublist prog d u mem n
+    rwa [if_neg hne] at this
+  have hgone : ∀ n, d.model.name ≠ n → ∀ c ∈ unitTaken prog d u mem, c.1 = n →
+      c.2 ∉ ((fillUnit prog d u mem).1.get n).map (·.idx) := by
+    intro n hne c hc e hmem
+    rw [fillUnit_get_of_ne prog d u mem hne] at hmem
+    obtain ⟨x, hx, e1⟩ := List.mem_map.1 hmem
+    have := (List.mem_filter.1 hx).2
+    simp only [Bool.not_eq_true', List.any_eq_false, Bool.and_eq_true, beq_iff_eq, not_and] at this
+    exact this c hc e e1.symm
+  -- a taken index is new in `d` only
+  have aux : ∀ n' i, i ∈ (unitTaken prog d u mem).map (·.2) →
+      i ∈ ((fillUnit prog d u mem).1.get n').map (·.idx) → d.model.name = n' := by
+    intro n' i hi hi'
+    by_cases hne : d.model.name = n'
+    · exact hne
+    · exfalso
+      obtain ⟨c, hc, rfl⟩ := List.mem_map.1 hi
+      have hold : c.2 ∈ (u.get n').map (·.idx) := ((hother n' hne).map _).subset hi'
+      have : c.1 = n' := h.unique_host c.1 n' c.2 (unitTaken_idx_mem hc).2 hold
+      exact hgone n' hne c hc this hi'
+  have split : ∀ n i, i ∈ ((fillUnit prog d u mem).1.get n).map (·.idx) →
+      i ∈ (u.get n).map (·.idx) ∨ (d.model.name = n ∧ i ∈ (unitTaken prog d u mem).map (·.2)) := by
+    intro n i hi
+    by_cases hne : d.model.name = n
+    · subst hne
+      rw [hI_self, List.mem_append] at hi
+      rcases hi with hi | hi
+      · exact Or.inl hi
+      · exact Or.inr ⟨rfl, hi⟩
+    · exact Or.inl (((hother n hne).map _).subset hi)
+  refine ⟨?_, ?_⟩
+  · intro n
+    by_cases hne : d.model.name = n
+    · subst hne
+      rw [hI_self, List.nodup_append]
+      refine ⟨h.nodup_unit _, hT, ?_⟩
+      intro i hi j hj e
+      subst e
+      obtain ⟨c, hc, rfl⟩ := List.mem_map.1 hj
+      have := h.unique_host _ _ _ hi (unitTaken_idx_mem hc).2
+      exact hself (this ▸ (unitTaken_idx_mem hc).1)
+    · exact ((hother n hne).map _).nodup (h.nodup_unit n)
+  · intro n n' i hi hi'
+    rcases split n i hi with h1 | ⟨h1, h1'⟩
+    · rcases split n' i hi' with h2 | ⟨h2, h2'⟩
+      · exact h.unique_host n n' i h1 h2
+      · exact (h2.symm.trans (aux n i h2' hi)).symm
+    · exact h1.symm.trans (aux n' i h1' hi')
+
+theorem RowBase.after_issue {p : Proc N} {e : Nat} {u : Util N} (h : RowBase p e u)
+    (hn : (p.allUnits.map (·.name)).Nodup) {port : UnitM N} (hp : port ∈ p.allUnits)
+    (hfree : (u.get port.name).length ≠ port.width) :
+    RowBase p (e + 1) (u.set port.name (u.get port.name ++ [⟨e, .U⟩])) := by
+  refine ⟨Util.keys_set_nodup _ _ h.keys_nodup, ?_, ?_, ?_⟩
+  · intro n hne
+    rw [Util.get_set] at hne
+    by_cases hpn : port.name = n
+    · subst hpn; exact List.mem_map.2 ⟨port, hp, rfl⟩
+    · rw [if_neg hpn] at hne; exact h.names n hne
+  · intro n x hx
+    rw [Util.get_set] at hx
+    by_cases hpn : port.name = n
+    · rw [if_pos hpn, List.mem_append] at hx
+      rcases hx with hx | hx
+      · have := h.idx_lt _ x hx; omega
+      · simp only [List.mem_singleton] at hx; subst hx; simp
+    · rw [if_neg hpn] at hx
+      have := h.idx_lt n x hx; omega
+  · intro m hm
+    rw [Util.get_set]
+    by_cases hpn : port.name = m.name
+    · have : port = m := unit_eq_of_name_eq hn hp hm hpn
+      subst this
+      have := h.width _ hm
+      simp only [if_true, List.length_append, List.length_singleton]
+      omega
+    · rw [if_neg hpn]; exact h.width m hm
+
+theorem RowND.after_issue {p : Proc N} {e : Nat} {u : Util N} (h : RowND u) (hb : RowBase p e u) (pn : N) :
+    RowND (u.set pn (u.get pn ++ [⟨e, .U⟩])) := by
+  have fresh : ∀ n, e ∉ (u.get n).map (·.idx) := by
+    intro n hi
+    obtain ⟨x, hx, e1⟩ := List.mem_map.1 hi
+    have := hb.idx_lt n x hx
+    omega
+  have split : ∀ n i, i ∈ ((u.set pn (u.get pn ++ [⟨e, .U⟩])).get n).map (·.idx) →
+      i ∈ (u.get n).map (·.idx) ∨ (pn = n ∧ i = e) := by
+    intro n i hi
+    rw [Util.get_set] at hi
+    by_cases hpn : pn = n
+    · rw [if_pos hpn, List.map_append, List.mem_append] at hi
+      rcases hi with hi | hi
+      · exact Or.inl (hpn ▸ hi)
+      · exact Or.inr ⟨hpn, by simpa using hi⟩
+    · rw [if_neg hpn] at hi; exact Or.inl hi
+  refine ⟨?_, ?_⟩
+  · intro n
+    rw [Util.get_set]
+    by_cases hpn : pn = n
+    · rw [if_pos hpn, List.map_append, List.nodup_append]
+      refine ⟨h.nodup_unit _, by simp, ?_⟩
+      intro i hi j hj e1
+      simp only [List.map_cons, List.map_nil, List.mem_singleton] at hj
+      subst e1; subst hj
+      exact fresh pn hi
+    · rw [if_neg hpn]; exact h.nodup_unit n
+  · intro n n' i hi hi'
+    rcases split n i hi with h1 | ⟨h1, h1'⟩ <;> rcases split n' i hi' with h2 | ⟨h2, h2'⟩
+    · exact h.unique_host n n' i h1 h2
+    · subst h2'; exact absurd h1 (fresh n)
+    · subst h1'; exact absurd h2 (fresh n')
+    · exact h1.symm.trans h2
+
+end steps
+
+/-- The fill phase of a cycle preserves `RowBase` (needs only unique unit names). -/
+theorem RowBase.after_fillCycle {p : Proc N} {e : Nat} {u : Util N} (h : RowBase p e u)
+    (hn : (p.allUnits.map (·.name)).Nodup) (prog : List (Instr N)) :
+    RowBase p (fillCycle p prog u e).2 (fillCycle p prog u e).1 := by
+  obtain ⟨_, h'⟩ := fillCycle_induction p prog (fun u' _ e' => RowBase p e' u') u e
+    (h.after_flush _)
+    (fun d hd u' mem hu' => hu'.after_fillUnit hn prog hd mem)
+    (fun u' mem e' ins port hu' _ hport husable =>
+      hu'.after_issue hn (mem_allUnits_of_mem_inBoundary hport) husable.2.2)
+  exact h'
+
+/-- The fill phase of a cycle preserves "no index hosted twice" (needs duplicate-free predecessor lists and that
+no unit is its own predecessor). -/
+theorem RowND.after_fillCycle {p : Proc N} {e : Nat} {u : Util N} (h : RowND u) (hb : RowBase p e u)
+    (hn : (p.allUnits.map (·.name)).Nodup) (hpn : ∀ d ∈ p.dests, d.preds.Nodup)
+    (hself : ∀ d ∈ p.dests, d.model.name ∉ d.preds) (prog : List (Instr N)) :
+    RowND (fillCycle p prog u e).1 := by
+  obtain ⟨_, h'⟩ := fillCycle_induction p prog (fun u' _ e' => RowBase p e' u' ∧ RowND u') u e
+    ⟨hb.after_flush _, h.after_flush _⟩
+    (fun d hd u' mem hu' => ⟨hu'.1.after_fillUnit hn prog hd mem, hu'.2.after_fillUnit prog (hpn d hd) (hself d hd) mem⟩)
+    (fun u' mem e' ins port hu' _ hport husable =>
+      ⟨hu'.1.after_issue hn (mem_allUnits_of_mem_inBoundary hport) husable.2.2, hu'.2.after_issue hu'.1 port.name⟩)
+  exact h'.2
+
+/-! ## 3'''. The state invariants -/
+
+/-- The part of the core invariant that needs only unique unit names (enough for C04 and C05). -/
+structure BaseInv (p : Proc N) (prog : List (Instr N)) (s : SimState N) : Prop where
+  entered_le : s.entered ≤ prog.length
+  /-- the last recorded cycle is the head of the table (`[]` before the first cycle) -/
+  util_eq : s.util = s.table.head?.getD []
+  row : RowBase p s.entered s.util
+  rows : ∀ r ∈ s.table, RowBase p s.entered r
+
+/-- The core invariant: `BaseInv` plus "no program index is hosted twice", for the current record and every
+recorded cycle. -/
+structure CoreInv (p : Proc N) (prog : List (Instr N)) (s : SimState N) : Prop extends BaseInv p prog s where
+  nd : RowND s.util
+  nds : ∀ r ∈ s.table, RowND r
+
+omit [LT N] [DecidableRel (α := N) (· < ·)] in
+theorem BaseInv.init (p : Proc N) (prog : List (Instr N)) : BaseInv p prog (initState prog) :=
+  ⟨Nat.zero_le _, rfl, RowBase.nil p 0, by simp [initState]⟩
+
+omit [LT N] [DecidableRel (α := N) (· < ·)] in
+theorem CoreInv.init (p : Proc N) (prog : List (Instr N)) : CoreInv p prog (initState prog) :=
+  ⟨BaseInv.init p prog, RowND.nil, by simp [initState]⟩
+
+theorem BaseInv.step {p : Proc N} {prog : List (Instr N)} (hn : (p.allUnits.map (·.name)).Nodup)
+    {s s' : SimState N} (h : BaseInv p prog s) (hs : runCycle p prog s = .ok (some s')) : BaseInv p prog s' := by
+  obtain ⟨lab, qs, hlab, _, _, rfl⟩ := runCycle_eq_some hs
+  have hfill := h.row.after_fillCycle hn prog
+  have hrow : RowBase p (fillCycle p prog s.util s.entered).2 lab.1 :=
+    hfill.congr (by rw [labelAll_keys hlab]; exact hfill.keys_nodup) (labelAll_get_idx hlab)
+  refine ⟨fillCycle_entered_le p prog _ _ h.entered_le, rfl, hrow, ?_⟩
+  intro r hr
+  rcases List.mem_cons.1 hr with e | e
+  · subst e; exact hrow
+  · exact (h.rows r e).mono (fillCycle_entered_ge p prog _ _)
+
+theorem CoreInv.step {p : Proc N} {prog : List (Instr N)} (hn : (p.allUnits.map (·.name)).Nodup)
+    (hpn : ∀ d ∈ p.dests, d.preds.Nodup) (hself : ∀ d ∈ p.dests, d.model.name ∉ d.preds)
+    {s s' : SimState N} (h : CoreInv p prog s) (hs : runCycle p prog s = .ok (some s')) : CoreInv p prog s' := by
+  have hb := h.toBaseInv.step hn hs
+  obtain ⟨lab, qs, hlab, _, _, rfl⟩ := runCycle_eq_some hs
+  have hnd : RowND lab.1 := (h.nd.after_fillCycle h.row hn hpn hself prog).congr (labelAll_get_idx hlab)
+  refine ⟨hb, hnd, ?_⟩
+  intro r hr
+  rcases List.mem_cons.1 hr with e | e
+  · subst e; exact hnd
+  · exact h.nds r e
+
+/-- `CoreInv` is preserved by a cycle of a well-formed processor -/
+theorem CoreInv.step_wf {p : Proc N} {prog : List (Instr N)} (hwf : wfProc p = true)
+    {s s' : SimState N} (h : CoreInv p prog s) (hs : runCycle p prog s = .ok (some s')) : CoreInv p prog s' :=
+  h.step (wfProc_nodup_names hwf) (wfProc_preds_nodup hwf) (wfProc_self_not_pred hwf) hs
+
+open Spec
+
+/-! ## 4. From cycles to diagrams -/
+
+/-- Invariant principle for `simLoop` with arbitrary fuel: a returned or stalled diagram is the (reversed) table of a
+state satisfying every invariant of `runCycle`. -/
+theorem simLoop_induction {p : Proc N} {prog : List (Instr N)} (Inv : SimState N → Prop)
+    (hstep : ∀ s s', Inv s → runCycle p prog s = .ok (some s') → Inv s') :
+    ∀ fuel s, Inv s →
+      (∀ tbl, simLoop p prog fuel s = .done tbl →
+        ∃ s', Inv s' ∧ tbl = s'.table.reverse ∧ s'.finished prog = true) ∧
+      (∀ tbl, simLoop p prog fuel s = .stall tbl →
+        ∃ s', Inv s' ∧ tbl = s'.table.reverse ∧ s'.finished prog = false ∧ runCycle p prog s' = .ok none) := by
+  intro fuel
+  induction fuel with
+  | zero =>
+    intro s hs
+    unfold simLoop
+    cases hf : s.finished prog with
+    | true =>
+      refine ⟨fun tbl h => ?_, fun tbl h => ?_⟩
+      · simp only [if_true] at h; injection h with h; exact ⟨s, hs, h.symm, hf⟩
+      · simp at h
+    | false => exact ⟨fun tbl h => by simp at h, fun tbl h => by simp at h⟩
+  | succ fuel ih =>
+    intro s hs
+    unfold simLoop
+    cases hf : s.finished prog with
+    | true =>
+      refine ⟨fun tbl h => ?_, fun tbl h => ?_⟩
+      · simp only [if_true] at h; injection h with h; exact ⟨s, hs, h.symm, hf⟩
+      · simp at h
+    | false =>
+      simp only [Bool.false_eq_true, if_false]
+      cases hr : runCycle p prog s with
+      | error f => exact ⟨fun tbl h => by simp at h, fun tbl h => by simp at h⟩
+      | ok o =>
+        cases o with
+        | none =>
+          refine ⟨fun tbl h => by simp at h, fun tbl h => ?_⟩
+          simp only at h; injection h with h
+          exact ⟨s, hs, h.symm, hf, hr⟩
+        | some s' => exact ih s' (hstep s s' hs hr)
+
+/-- **Lifting principle.** Every diagram `simulate` hands out is the reversed table of a state that satisfies any
+property `Inv` holding initially and preserved by successful cycles. -/
+theorem simulate_induction {p : Proc N} {prog : List (Instr N)} (Inv : SimState N → Prop)
+    (h0 : Inv (initState prog))
+    (hstep : ∀ s s', Inv s → runCycle p prog s = .ok (some s') → Inv s') :
+    ∀ tbl stalled, Diagram p prog tbl stalled →
+      ∃ s, Inv s ∧ tbl = s.table.reverse ∧ (stalled = true → runCycle p prog s = .ok none) ∧
+        (stalled = false → s.finished prog = true) := by
+  intro tbl stalled hd
+  have := simLoop_induction (p := p) (prog := prog) Inv hstep (cycleBound p prog) (initState prog) h0
+  rcases hd with ⟨hst, hd⟩ | ⟨hst, hd⟩
+  · obtain ⟨s, hs, ht, hf⟩ := this.1 tbl hd
+    exact ⟨s, hs, ht, fun e => (by rw [hst] at e; cases e), fun _ => hf⟩
+  · obtain ⟨s, hs, ht, _, hr⟩ := this.2 tbl hd
+    exact ⟨s, hs, ht, fun _ => hr, fun e => (by rw [hst] at e; cases e)⟩
+
+/-! ### adjacent cycles -/
+
+section adj
+omit [DecidableEq N] [LT N] [DecidableRel (α := N) (· < ·)]
+
+/-- the record before cycle `t` of a diagram: the empty record for the first cycle -/
+def prevRow (tbl : List (Util N)) (t : Nat) : Util N := if t = 0 then ([] : List (N × List HI)) else tbl.getD (t - 1) []
+
+/-- `R prev cur` holds for every recorded cycle of a newest-first table -/
+def ChainR (R : Util N → Util N → Prop) : List (Util N) → Prop
+  | [] => True
+  | r :: rest => R (rest.head?.getD ([] : List (N × List HI))) r ∧ ChainR R rest
+
+theorem getD_mem_or_nil (tbl : List (Util N)) (t : Nat) :
+    tbl.getD t ([] : List (N × List HI)) = ([] : List (N × List HI)) ∨ tbl.getD t ([] : List (N × List HI)) ∈ tbl := by
+  rw [List.getD_eq_getElem?_getD]
+  cases h : tbl[t]? with
+  | none => exact Or.inl rfl
+  | some r => exact Or.inr (List.mem_of_getElem? h)
+
+theorem ChainR.adjacent {R : Util N → Util N → Prop} {table : List (Util N)} (h : ChainR R table) :
+    ∀ t, t < table.length → R (prevRow table.reverse t) (table.reverse.getD t ([] : List (N × List HI))) := by
+  induction table with
+  | nil => intro t ht; simp at ht
+  | cons r rest ih =>
+    obtain ⟨h1, h2⟩ := h
+    intro t ht
+    simp only [List.length_cons] at ht
+    simp only [List.reverse_cons, prevRow, List.getD_eq_getElem?_getD]
+    by_cases hlt : t < rest.length
+    · have e1 : (rest.reverse ++ [r])[t]? = rest.reverse[t]? :=
+        List.getElem?_append_left (by simpa using hlt)
+      have e2 : (rest.reverse ++ [r])[t - 1]? = rest.reverse[t - 1]? :=
+        List.getElem?_append_left (by simp; omega)
+      rw [e1, e2]
+      have := ih h2 t hlt
+      simpa only [prevRow, List.getD_eq_getElem?_getD] using this
+    · have ht' : t = rest.length := by omega
+      subst ht'
+      have e1 : (rest.reverse ++ [r])[rest.length]? = some r := by
+        rw [List.getElem?_append_right (by simp)]; simp
+      rw [e1]
+      cases rest with
+      | nil => simpa using h1
+      | cons r' rest' =>
+        have e2 : ((r' :: rest').reverse ++ [r])[(r' :: rest').length - 1]? = some r' := by
+          rw [List.getElem?_append_left (by simp)]
+          simp
+        rw [e2]
+        simpa using h1
+
+end adj
+
+/-- **Adjacent-cycle principle.** If `Inv` is an invariant that implies "`util` is the head of the table", and every
+successful cycle relates the previous record to the new one by `R`, then in every diagram `R (row t-1) (row t)` holds
+for all recorded cycles (`row (-1)` = the empty record). -/
+theorem simulate_adjacent {p : Proc N} {prog : List (Instr N)} (Inv : SimState N → Prop)
+    (h0 : Inv (initState prog))
+    (hstep : ∀ s s', Inv s → runCycle p prog s = .ok (some s') → Inv s')
+    (hutil : ∀ s, Inv s → s.util = s.table.head?.getD ([] : List (N × List HI)))
+    (R : Util N → Util N → Prop)
+    (hR : ∀ s s', Inv s → runCycle p prog s = .ok (some s') → R s.util s'.util) :
+    ∀ tbl stalled, Diagram p prog tbl stalled →
+      ∀ t, t < tbl.length → R (prevRow tbl t) (tbl.getD t ([] : List (N × List HI))) := by
+  intro tbl stalled hd
+  obtain ⟨s, ⟨_, hc⟩, ht, _⟩ := simulate_induction (p := p) (prog := prog)
+    (fun s => Inv s ∧ ChainR R s.table) ⟨h0, trivial⟩
+    (fun s s' hs hr => by
+      refine ⟨hstep s s' hs.1 hr, ?_⟩
+      have hRel := hR s s' hs.1 hr
+      obtain ⟨lab, qs, _, _, _, rfl⟩ := runCycle_eq_some hr
+      exact ⟨by rw [← hutil s hs.1]; exact hRel, hs.2⟩)
+    tbl stalled hd
+  subst ht
+  intro t hlt
+  exact hc.adjacent t (by simpa using hlt)
+
+/-! ### the invariants on diagrams -/
+
+theorem Diagram_BaseInv {p : Proc N} {prog : List (Instr N)} (hn : (p.allUnits.map (·.name)).Nodup)
+    {tbl : List (Util N)} {stalled : Bool} (h : Diagram p prog tbl stalled) :
+    ∃ s, BaseInv p prog s ∧ tbl = s.table.reverse ∧ (stalled = true → runCycle p prog s = .ok none) ∧
+      (stalled = false → s.finished prog = true) :=
+  simulate_induction (BaseInv p prog) (BaseInv.init p prog) (fun _ _ hs hr => hs.step hn hr) tbl stalled h
+
+theorem Diagram_CoreInv {p : Proc N} {prog : List (Instr N)} (hwf : wfProc p = true)
+    {tbl : List (Util N)} {stalled : Bool} (h : Diagram p prog tbl stalled) :
+    ∃ s, CoreInv p prog s ∧ tbl = s.table.reverse ∧ (stalled = true → runCycle p prog s = .ok none) ∧
+      (stalled = false → s.finished prog = true) :=
+  simulate_induction (CoreInv p prog) (CoreInv.init p prog) (fun _ _ hs hr => hs.step_wf hwf hr) tbl stalled h
+
+/-- every row of a diagram (and the empty record beyond its end) satisfies `RowBase`, with one bound
+`e ≤ prog.length` on the hosted indices -/
+theorem Diagram_rowBase {p : Proc N} {prog : List (Instr N)} (hn : (p.allUnits.map (·.name)).Nodup)
+    {tbl : List (Util N)} {stalled : Bool} (h : Diagram p prog tbl stalled) :
+    ∃ e, e ≤ prog.length ∧ ∀ t, RowBase p e (tbl.getD t ([] : List (N × List HI))) := by
+  obtain ⟨s, hs, rfl, _⟩ := Diagram_BaseInv hn h
+  refine ⟨s.entered, hs.entered_le, fun t => ?_⟩
+  rcases getD_mem_or_nil s.table.reverse t with e | e
+  · rw [e]; exact RowBase.nil p _
+  · exact hs.rows _ (List.mem_reverse.1 e)
+
+/-- in every row of a diagram of a well-formed processor no program index is hosted twice -/
+theorem Diagram_rowND {p : Proc N} {prog : List (Instr N)} (hwf : wfProc p = true)
+    {tbl : List (Util N)} {stalled : Bool} (h : Diagram p prog tbl stalled) :
+    ∀ t, RowND (tbl.getD t ([] : List (N × List HI))) := by
+  obtain ⟨s, hs, rfl, _⟩ := Diagram_CoreInv hwf h
+  intro t
+  rcases getD_mem_or_nil s.table.reverse t with e | e
+  · rw [e]; exact RowND.nil
+  · exact hs.nds _ (List.mem_reverse.1 e)
+
+open Spec
+
+/-! ## 5. Memory-port accounting (C05) -/
+
+section mem
+omit [LT N] [DecidableRel (α := N) (· < ·)]
+
+/-- number of instructions in unit `m` of record `new` that are not in unit `m` of record `old` and whose capability
+is in `m`'s memory ACL — the *memory entries* into `m` -/
+def memNewAt (prog : List (Instr N)) (old new : Util N) (m : UnitM N) : Nat :=
+  (((new.get m.name).map (·.idx)).filter
+    (fun i => !((old.get m.name).any (fun o => o.idx == i)) && capIn prog i m.acl)).length
+
+/-- memory entries into all units of the list -/
+def memNew (prog : List (Instr N)) (units : List (UnitM N)) (old new : Util N) : Nat :=
+  (units.map (memNewAt prog old new)).sum
+
+theorem filter_length_le_of_imp {α : Type} (l : List α) (p q : α → Bool) (h : ∀ a, p a = true → q a = true) :
+    (l.filter p).length ≤ (l.filter q).length := by
+  have : l.filter p = (l.filter q).filter p := by
+    rw [List.filter_filter]
+    apply List.filter_congr
+    intro a _
+    cases hp : p a
+    · simp
+    · simp [h a hp]
+  rw [this]
+  exact List.filter_sublist.length_le
+
+theorem sum_eq_zero_of_forall (l : List Nat) (h : ∀ k ∈ l, k = 0) : l.sum = 0 := by
+  induction l with
+  | nil => rfl
+  | cons a l ih =>
+    rw [List.sum_cons, h a List.mem_cons_self, ih (fun k hk => h k (List.mem_cons_of_mem _ hk))]
+
+theorem memNewAt_congr (prog : List (Instr N)) (old : Util N) {new new' : Util N} (m : UnitM N)
+    (h : (new'.get m.name).map (·.idx) = (new.get m.name).map (·.idx)) :
+    memNewAt prog old new' m = memNewAt prog old new m := by
+  unfold memNewAt; rw [h]
+
+theorem memNew_congr (prog : List (Instr N)) (units : List (UnitM N)) (old : Util N) {new new' : Util N}
+    (h : ∀ n, (new'.get n).map (·.idx) = (new.get n).map (·.idx)) :
+    memNew prog units old new' = memNew prog units old new := by
+  unfold memNew
+  congr 1
+  apply List.map_congr_left
+  intro m _
+  exact memNewAt_congr prog old m (h m.name)
+
+/-- appending `app` to a unit (and then dropping anything) adds at most the memory-needing part of `app` -/
+theorem memNewAt_le_of_sublist (prog : List (Instr N)) (old : Util N) {new new' : Util N} (m : UnitM N)
+    (app : List HI) (h : (new'.get m.name).Sublist (new.get m.name ++ app)) :
+    memNewAt prog old new' m ≤
+      memNewAt prog old new m + (app.filter (fun x => capIn prog x.idx m.acl)).length := by
+  unfold memNewAt
+  have h1 := ((h.map (·.idx)).filter
+    (fun i => !((old.get m.name).any (fun o => o.idx == i)) && capIn prog i m.acl)).length_le
+  rw [List.map_append, List.filter_append, List.length_append] at h1
+  refine Nat.le_trans h1 (Nat.add_le_add_left ?_ _)
+  have h2 : ((app.map (·.idx)).filter
+      (fun i => !((old.get m.name).any (fun o => o.idx == i)) && capIn prog i m.acl)).length ≤
+      ((app.map (·.idx)).filter (fun i => capIn prog i m.acl)).length := by
+    apply filter_length_le_of_imp
+    intro i hi
+    simp only [Bool.and_eq_true] at hi
+    exact hi.2
+  refine Nat.le_trans h2 (Nat.le_of_eq ?_)
+  rw [List.filter_map, List.length_map]
+  rfl
+
+theorem memNewAt_le_of_sublist' (prog : List (Instr N)) (old : Util N) {new new' : Util N} (m : UnitM N)
+    (h : (new'.get m.name).Sublist (new.get m.name)) : memNewAt prog old new' m ≤ memNewAt prog old new m := by
+  have := memNewAt_le_of_sublist prog old m [] (by simpa using h)
+  simpa using this
+
+/-- instructions that were already in the unit are not entries -/
+theorem memNewAt_eq_zero (prog : List (Instr N)) {old new : Util N} (m : UnitM N)
+    (h : (new.get m.name).Sublist (old.get m.name)) : memNewAt prog old new m = 0 := by
+  unfold memNewAt
+  rw [List.length_eq_zero_iff, List.filter_eq_nil_iff]
+  intro i hi
+  obtain ⟨x, hx, rfl⟩ := List.mem_map.1 hi
+  have : (old.get m.name).any (fun o => o.idx == x.idx) = true :=
+    List.any_eq_true.2 ⟨x, h.subset hx, by simp⟩
+  simp [this]
+
+theorem sum_map_le_add_aux (us : List (UnitM N)) (hn : (us.map (·.name)).Nodup) (f g : UnitM N → Nat) (x : N)
+    (k : Nat) (h : ∀ m ∈ us, g m ≤ f m + (if m.name = x then k else 0)) :
+    (us.map g).sum ≤ (us.map f).sum + (if x ∈ us.map (·.name) then k else 0) := by
+  induction us with
+  | nil => simp
+  | cons m us ih =>
+    simp only [List.map_cons, List.nodup_cons] at hn
+    have h1 := h m List.mem_cons_self
+    have h2 := ih hn.2 (fun m' hm' => h m' (List.mem_cons_of_mem _ hm'))
+    simp only [List.map_cons, List.sum_cons, List.mem_cons]
+    by_cases e : m.name = x
+    · have hx : x ∉ us.map (·.name) := e ▸ hn.1
+      rw [if_pos e] at h1
+      rw [if_neg hx] at h2
+      rw [if_pos (Or.inl e.symm)]
+      omega
+    · rw [if_neg e] at h1
+      have e' : ¬ x = m.name := fun a => e a.symm
+      by_cases hx : x ∈ us.map (·.name)
+      · rw [if_pos hx] at h2; rw [if_pos (Or.inr hx)]; omega
+      · rw [if_neg hx] at h2; rw [if_neg (by simp only [not_or]; exact ⟨e', hx⟩)]; omega
+
+/-- one step of the fill phase: unit `x` gets `app` appended (and anything may be dropped anywhere); the number of
+memory entries grows by at most the memory-needing part of `app`. Needs unique unit names. -/
+theorem memNew_step (prog : List (Instr N)) {units : List (UnitM N)} (hn : (units.map (·.name)).Nodup)
+    (old : Util N) {u u' : Util N} (x : UnitM N) (hx : x ∈ units) (app : List HI)
+    (hother : ∀ n, x.name ≠ n → (u'.get n).Sublist (u.get n))
+    (hself : (u'.get x.name).Sublist (u.get x.name ++ app)) :
+    memNew prog units old u' ≤ memNew prog units old u + (app.filter (fun h => capIn prog h.idx x.acl)).length := by
+  have := sum_map_le_add_aux units hn (memNewAt prog old u) (memNewAt prog old u') x.name
+    ((app.filter (fun h => capIn prog h.idx x.acl)).length) (by
+      intro m hm
+      by_cases e : m.name = x.name
+      · have : m = x := unit_eq_of_name_eq hn hm hx e
+        subst this
+        rw [if_pos rfl]
+        exact memNewAt_le_of_sublist prog old m app hself
+      · rw [if_neg e]
+        exact memNewAt_le_of_sublist' prog old m (hother m.name (fun a => e a.symm)))
+  unfold memNew
+  refine Nat.le_trans this (Nat.add_le_add_left ?_ _)
+  split <;> omega
+
+theorem memNew_flush (prog : List (Instr N)) (units : List (UnitM N)) (outs : List N) (old : Util N) :
+    memNew prog units old (flushOutputs outs old) = 0 := by
+  unfold memNew
+  apply sum_eq_zero_of_forall
+  intro k hk
+  obtain ⟨m, _, rfl⟩ := List.mem_map.1 hk
+  exact memNewAt_eq_zero prog m (flushOutputs_get_sublist outs old m.name)
+
+end mem
+
+/-- **Memory accounting for the fill phase.** With unique unit names, at most one instruction becomes a memory entry
+in the fill phase of a cycle (moves and issues together): the threaded flag bounds the count. -/
+theorem fillCycle_memNew_le_one {p : Proc N} (hn : (p.allUnits.map (·.name)).Nodup) (prog : List (Instr N))
+    (old : Util N) (e : Nat) : memNew prog p.allUnits old (fillCycle p prog old e).1 ≤ 1 := by
+  obtain ⟨mem', h⟩ := fillCycle_induction p prog (fun u mem _ => memNew prog p.allUnits old u ≤ mem.toNat) old e
+    (by rw [memNew_flush]; exact Nat.zero_le _)
+    (by
+      intro d hd u mem hu
+      have hstep := memNew_step prog hn old (u := u) (u' := (fillUnit prog d u mem).1) d.model
+        (model_mem_allUnits_of_mem_dests hd)
+        ((unitTaken prog d u mem).map (fun c => (⟨c.2, .U⟩ : HI)))
+        (by intro n hne; have := fillUnit_get_sublist prog d u mem n; rwa [if_neg hne] at this)
+        (by have := fillUnit_get_sublist prog d u mem d.model.name; rwa [if_pos rfl] at this)
+      have hcnt : (((unitTaken prog d u mem).map (fun c => (⟨c.2, .U⟩ : HI))).filter
+          (fun h => capIn prog h.idx d.model.acl)).length =
+          ((unitTaken prog d u mem).filter (fun c => capIn prog c.2 d.model.acl)).length := by
+        rw [List.filter_map, List.length_map]; rfl
+      have hmem := fillUnit_mem prog d u mem
+      omega)
+    (by
+      intro u mem e' ins port hu hins hport husable
+      have hstep := memNew_step prog hn old (u := u) (u' := u.set port.name (u.get port.name ++ [⟨e', .U⟩])) port
+        (mem_allUnits_of_mem_inBoundary hport) [⟨e', .U⟩]
+        (by intro n hne; rw [Util.get_set_ne _ _ hne]; exact List.Sublist.refl _)
+        (by rw [Util.get_set_eq]; exact List.Sublist.refl _)
+      have hcap : capIn prog e' port.acl = decide (ins.cap ∈ port.acl) := by simp [capIn, hins]
+      have hcnt : (([⟨e', .U⟩] : List HI).filter (fun h => capIn prog h.idx port.acl)).length =
+          (decide (ins.cap ∈ port.acl)).toNat := by
+        simp only [List.filter_cons, List.filter_nil, hcap]
+        cases decide (ins.cap ∈ port.acl) <;> simp
+      have hfree := husable.2.1
+      rw [hcnt] at hstep
+      revert hstep hu hfree
+      cases mem <;> cases decide (ins.cap ∈ port.acl) <;> simp <;> omega)
+  have : mem'.toNat ≤ 1 := by cases mem' <;> simp
+  omega
+
+/-- **Memory accounting for a cycle**: between the previous record and the new one there is at most one memory
+entry. -/
+theorem runCycle_memNew_le_one {p : Proc N} (hn : (p.allUnits.map (·.name)).Nodup) {prog : List (Instr N)}
+    {s s' : SimState N} (hs : runCycle p prog s = .ok (some s')) :
+    memNew prog p.allUnits s.util s'.util ≤ 1 := by
+  obtain ⟨lab, qs, hlab, _, _, rfl⟩ := runCycle_eq_some hs
+  simp only
+  rw [memNew_congr prog p.allUnits s.util (labelAll_get_idx hlab)]
+  exact fillCycle_memNew_le_one hn prog s.util s.entered
+
+/-- in every diagram, every recorded cycle has at most one memory entry w.r.t. the cycle before -/
+theorem Diagram_memNew_le_one {p : Proc N} (hn : (p.allUnits.map (·.name)).Nodup) {prog : List (Instr N)}
+    {tbl : List (Util N)} {stalled : Bool} (h : Diagram p prog tbl stalled) :
+    ∀ t, t < tbl.length →
+      memNew prog p.allUnits (prevRow tbl t) (tbl.getD t ([] : List (N × List HI))) ≤ 1 :=
+  simulate_adjacent (BaseInv p prog) (BaseInv.init p prog) (fun _ _ hs hr => hs.step hn hr)
+    (fun _ hs => hs.util_eq) (fun old new => memNew prog p.allUnits old new ≤ 1)
+    (fun _ _ _ hr => runCycle_memNew_le_one hn hr) tbl stalled h
+
 end ProcSim
